@@ -4,6 +4,7 @@ import (
 	"fmt"
 	"go/token"
 	"go/types"
+	"os"
 	"strings"
 	"time"
 
@@ -530,6 +531,9 @@ func (vc *FuncVC) loopEnv(st *State, li *loopInfo) *Env {
 	env := &Env{vc: vc, st: st, old: vc.entry, vars: map[string]TV{}, pkg: fr.fn.Pkg.Pkg, loop: li}
 	for name, lr := range vc.localNames(fr.fn, li.header) {
 		v, ok := fr.regs[lr.v]
+		if os.Getenv("GOVC_TRACE_IDENT") == name {
+			fmt.Fprintf(os.Stderr, "loopEnv %s: ssa %s (%T) isAddr=%v bound=%v val=%v\n", name, lr.v.Name(), lr.v, lr.isAddr, ok, v)
+		}
 		if !ok {
 			if c, isConst := lr.v.(*ssa.Const); isConst {
 				v = vc.constValue(c)
